@@ -187,8 +187,39 @@ def query_reqs(rng, v, reqs):
     reqs.append("C07 i.not %s" % wi(s))
     reqs.append("C07 i.not_val %s" % wi(-s))
 
-def gen(rng, tier):
+def huge_requests(rng, tier):
+    """bit queries on run-length encoded operands (`u.huge` / `i.huge`): many small shapes (cheap; they tie the RL
+    definitions of the model to the real functions through the same parser) and a few operands of 2^26 + k digits, the
+    only ones on which a counter kept in u32 / usize-as-u32 arithmetic overflows (C07-t1: popcounts summed in u32)."""
     reqs = []
+    M = MAX
+    def seg(l):
+        return ",".join("%x*%d" % (d, n) for d, n in l)
+    pats = [0, 0, M, M, 1, 1 << 63, 0x5555555555555555, 0xffffffff00000000, 0xffffffff]
+    for _ in range(300 if tier == "thorough" else 80):
+        l = [(rng.choice(pats + [rng.randrange(B)]), rng.choice([0, 1, 1, 2, 3, 7, 64, 65, 200])) for _ in range(rng.randrange(1, 6))]
+        l.append((rng.choice([1, M, 1 << 63, rng.randrange(1, B)]), 1))        # canonical: non-zero top digit
+        total = sum(n for _, n in l)
+        for q in ("count_ones", "bits", "trailing_zeros", "trailing_ones", "bit:%d" % rng.randrange(0, 64 * total + 70),
+                  "bit:%d" % (64 * rng.randrange(0, total + 1) + rng.choice([0, 63]))):
+            reqs.append("C07 u.huge %s %s" % (q, seg(l)))
+        reqs.append("C07 i.huge %s %s %s" % (rng.choice(["bits", "trailing_zeros"]), rng.choice("+-"), seg(l)))
+    H = 1 << 26                                                               # 2^26 digits = 2^32 bits
+    big_shapes = [("count_ones", [(M, H)]), ("count_ones", [(M, H), (1, 1)]), ("bits", [(0, H), (1, 1)]),
+                  ("trailing_zeros", [(0, H), (8, 1)]), ("trailing_ones", [(M, H), (1, 1)]),
+                  ("bit:%d" % (64 * H), [(0, H), (1, 1)]), ("bit:%d" % (64 * H + 1), [(0, H), (1, 1)])]
+    if tier == "thorough":
+        big_shapes += [("count_ones", [(0x5555555555555555, 2 * H), (3, 1)]), ("bits", [(M, H - 1), (1, 1)]),
+                       ("trailing_zeros", [(0, H - 1), (1 << 63, 1), (7, 1)]), ("trailing_ones", [(M, H - 1), (M >> 1, 1), (1, 1)]),
+                       ("count_ones", [(M, H - 1), (M >> 1, 1)]), ("bit:%d" % (64 * H - 1), [(M, H)])]
+    for q, l in big_shapes:
+        reqs.append("C07 u.huge %s %s" % (q, seg(l)))
+    reqs.append("C07 i.huge trailing_zeros - %s" % seg([(0, H), (8, 1)]))
+    reqs.append("C07 i.huge bits - %s" % seg([(0, H), (1, 1)]))
+    return reqs
+
+def gen(rng, tier):
+    reqs = huge_requests(rng, tier)
     rounds = 8 if tier == "thorough" else 1
     for _ in range(rounds):
         sp = specials(rng, tier)
